@@ -470,7 +470,7 @@ theorem pure_ok {α : Type} {a b : α} (h : (pure a : Except Err α) = .ok b) : 
 theorem buildStructLike_spec {ft : Feat} {ident : Bytes → Bytes} {g g' : NS} {v : SL} {nn : Bytes} {s : StructNames}
     (h : buildStructLike ft ident g v nn = .ok (g', s)) :
     Steps g g' (slGlobals s) (slGlobalIds v nn) ∧
-    buildMembers ft ident v.name v.cat v.fields = .ok (s.scope, s.fields) ∧ s.raw = v.name ∧ s.cat = v.cat := by
+    buildMembers ft ident v.name s.goName v.cat v.fields = .ok (s.scope, s.fields) ∧ s.raw = v.name ∧ s.cat = v.cat := by
   unfold buildStructLike at h
   obtain ⟨⟨sn', g1⟩, h1, h⟩ := bind_ok h
   obtain ⟨g2, h2, h⟩ := bind_ok h
@@ -840,16 +840,30 @@ theorem methods_of_trace (ft : Feat) (ident : Bytes → Bytes) (ns : NS) :
           (fun f hf => a1 f (List.mem_cons_of_mem _ hf)) (fun f hf => a2 f (List.mem_cons_of_mem _ hf))
           (fun f hf => a3 f (List.mem_cons_of_mem _ hf))]
 
-theorem mem_reservedFuncs {ft : Feat} {cat : Cat} {raw n : Bytes} (h : n ∈ reservedFuncs ft cat raw) :
-    n ∈ [sRead, sWrite, sString, sCountSetFields, sError, sCarrying, sDeepEqual] := by
-  unfold reservedFuncs at h
-  simp only [List.mem_append, List.mem_cons, List.not_mem_nil, or_false] at h ⊢
-  rcases h with h | h
-  · rcases h with h | h | h <;> simp [h]
-  · split at h
-    · cases h
-    · simp only [List.mem_append] at h
-      rcases h with ((h | h) | h) | h <;> split at h <;> simp_all
+/-- the first byte is an upper-case ASCII letter (or below): no internal method id (`$get:…`, `$set:…`, …) is one -/
+def up : Bytes → Bool
+  | c :: _ => decide (c ≤ 90)
+  | [] => false
+
+theorem up_append {A B : List Bytes} (hA : A.all up = true) (hB : B.all up = true) : (A ++ B).all up = true := by
+  simp [List.all_append, hA, hB]
+
+theorem up_ite {c : Prop} [Decidable c] {A B : List Bytes} (hA : A.all up = true) (hB : B.all up = true) :
+    (if c then A else B).all up = true := by
+  split <;> assumption
+
+/-- every reserved method name starts with an upper-case letter (whatever the feature set) -/
+theorem reservedFuncs_up (ft : Feat) (cat : Cat) (raw goName : Bytes) : (reservedFuncs ft cat raw goName).all up = true := by
+  unfold reservedFuncs
+  repeat' (first | apply up_append | apply up_ite)
+  all_goals (first | rfl | simp [up, sCountSetFields])
+
+theorem not_reserved_of_lower {ft : Feat} {cat : Cat} {raw goName : Bytes} {c : Nat} {r : Bytes} (hc : 90 < c) :
+    c :: r ∉ reservedFuncs ft cat raw goName := by
+  intro hm
+  have := List.all_eq_true.1 (reservedFuncs_up ft cat raw goName) _ hm
+  simp only [up, decide_eq_true_eq] at this
+  omega
 
 theorem mem_methodOps_name {ft : Feat} {ident : Bytes → Bytes} {f : Fld} {op : Op} (h : op ∈ methodOps ft ident f) :
     op.name ≠ [] := by
@@ -874,46 +888,43 @@ theorem underscore_ne_nil {n : Bytes} (h : n ≠ []) (k : Nat) : underscore n k 
   simp [underscore, h]
 
 /-- an id `$set:x` is not used when gen_setter is off -/
-theorem setId_absent (ft : Feat) (ident : Bytes → Bytes) (raw : Bytes) (cat : Cat) (fields : List Fld) (x : Bytes)
+theorem setId_absent (ft : Feat) (ident : Bytes → Bytes) (raw goName : Bytes) (cat : Cat) (fields : List Fld) (x : Bytes)
     (h : ft.setter = false) :
-    dollar (tSet ++ x) ∉ (reservedFuncs ft cat raw).map dollar ++ (fields.flatMap (methodOps ft ident)).map Op.id := by
+    dollar (tSet ++ x) ∉ (reservedFuncs ft cat raw goName).map dollar ++ (fields.flatMap (methodOps ft ident)).map Op.id := by
   intro hm
   rcases List.mem_append.1 hm with hm | hm
-  · obtain ⟨n, hn, e⟩ := List.mem_map.1 hm
-    have := mem_reservedFuncs hn
+  · obtain ⟨n, hn', e⟩ := List.mem_map.1 hm
     simp only [dollar, List.cons.injEq, true_and] at e
     subst e
-    simp [tSet, sRead, sWrite, sString, sCountSetFields, sError, sCarrying, sDeepEqual] at this
+    exact not_reserved_of_lower (by decide) hn'
   · rw [List.map_flatMap] at hm
     obtain ⟨f', _, hi⟩ := List.mem_flatMap.1 hm
     rw [methodOps_ids] at hi
     simp [h, dollar, tSet, tGet, tIsset, tRead, tWrite, tDeepequal] at hi
 
-theorem deqId_absent (ft : Feat) (ident : Bytes → Bytes) (raw : Bytes) (cat : Cat) (fields : List Fld) (x : Bytes)
+theorem deqId_absent (ft : Feat) (ident : Bytes → Bytes) (raw goName : Bytes) (cat : Cat) (fields : List Fld) (x : Bytes)
     (h : ft.deq = false) :
-    dollar (tDeepequal ++ x) ∉ (reservedFuncs ft cat raw).map dollar ++ (fields.flatMap (methodOps ft ident)).map Op.id := by
+    dollar (tDeepequal ++ x) ∉ (reservedFuncs ft cat raw goName).map dollar ++ (fields.flatMap (methodOps ft ident)).map Op.id := by
   intro hm
   rcases List.mem_append.1 hm with hm | hm
-  · obtain ⟨n, hn, e⟩ := List.mem_map.1 hm
-    have := mem_reservedFuncs hn
+  · obtain ⟨n, hn', e⟩ := List.mem_map.1 hm
     simp only [dollar, List.cons.injEq, true_and] at e
     subst e
-    simp [tDeepequal, sRead, sWrite, sString, sCountSetFields, sError, sCarrying, sDeepEqual] at this
+    exact not_reserved_of_lower (by decide) hn'
   · rw [List.map_flatMap] at hm
     obtain ⟨f', _, hi⟩ := List.mem_flatMap.1 hm
     rw [methodOps_ids] at hi
     simp [h, dollar, tSet, tGet, tIsset, tRead, tWrite, tDeepequal] at hi
 
-theorem issetId_absent (ft : Feat) (ident : Bytes → Bytes) (raw : Bytes) (cat : Cat) (fields : List Fld) (f : Fld)
+theorem issetId_absent (ft : Feat) (ident : Bytes → Bytes) (raw goName : Bytes) (cat : Cat) (fields : List Fld) (f : Fld)
     (hf : f ∈ fields) (hn : (fields.map (·.name)).Nodup) (h : f.isset = false) :
-    dollar (tIsset ++ f.name) ∉ (reservedFuncs ft cat raw).map dollar ++ (fields.flatMap (methodOps ft ident)).map Op.id := by
+    dollar (tIsset ++ f.name) ∉ (reservedFuncs ft cat raw goName).map dollar ++ (fields.flatMap (methodOps ft ident)).map Op.id := by
   intro hm
   rcases List.mem_append.1 hm with hm | hm
-  · obtain ⟨n, hn, e⟩ := List.mem_map.1 hm
-    have := mem_reservedFuncs hn
+  · obtain ⟨n, hn', e⟩ := List.mem_map.1 hm
     simp only [dollar, List.cons.injEq, true_and] at e
     subst e
-    simp [tIsset, sRead, sWrite, sString, sCountSetFields, sError, sCarrying, sDeepEqual] at this
+    exact not_reserved_of_lower (by decide) hn'
   · rw [List.map_flatMap] at hm
     obtain ⟨f', hf', hi⟩ := List.mem_flatMap.1 hm
     rw [methodOps_ids] at hi
@@ -924,11 +935,11 @@ theorem issetId_absent (ft : Feat) (ident : Bytes → Bytes) (raw : Bytes) (cat 
     rw [h] at hi1
     cases hi1
 
-theorem buildMembers_steps (ft : Feat) (ident : Bytes → Bytes) (raw : Bytes) (cat : Cat) (fields : List Fld)
-    (ns : NS) (fs : List FieldNames) (h : buildMembers ft ident raw cat fields = .ok (ns, fs))
-    (hid : (memberIds ft ident raw cat fields).Nodup) (hraw : ∀ f ∈ fields, hasDollar f.name = false) :
-    Steps NS.empty ns (reservedFuncs ft cat raw ++ fs.flatMap fieldMethodNames ++ fs.map (·.name))
-      (memberIds ft ident raw cat fields) := by
+theorem buildMembers_steps (ft : Feat) (ident : Bytes → Bytes) (raw goName : Bytes) (cat : Cat) (fields : List Fld)
+    (ns : NS) (fs : List FieldNames) (h : buildMembers ft ident raw goName cat fields = .ok (ns, fs))
+    (hid : (memberIds ft ident raw goName cat fields).Nodup) (hraw : ∀ f ∈ fields, hasDollar f.name = false) :
+    Steps NS.empty ns (reservedFuncs ft cat raw goName ++ fs.flatMap fieldMethodNames ++ fs.map (·.name))
+      (memberIds ft ident raw goName cat fields) := by
   unfold buildMembers at h
   obtain ⟨ns0, h0, h⟩ := bind_ok h
   obtain ⟨ns1, h1, h⟩ := bind_ok h
@@ -948,23 +959,23 @@ theorem buildMembers_steps (ft : Feat) (ident : Bytes → Bytes) (raw : Bytes) (
     obtain ⟨f, _, hof⟩ := List.mem_flatMap.1 ho
     rw [hk]
     exact underscore_ne_nil (mem_methodOps_name hof) k
-  have habs : ∀ i, i ∉ (reservedFuncs ft cat raw).map dollar ++ (fields.flatMap (methodOps ft ident)).map Op.id →
+  have habs : ∀ i, i ∉ (reservedFuncs ft cat raw goName).map dollar ++ (fields.flatMap (methodOps ft ident)).map Op.id →
       lk i ns1.i2n = none := by
     intro i hi
     rw [eRM.frame i (by rw [List.map_append, iR, iM]; exact hi)]
     rfl
   have hmeth := methods_of_trace ft ident ns1 fields trM iM hb hne
-    (fun f _ hs => habs _ (setId_absent ft ident raw cat fields f.name hs))
-    (fun f hf hs => habs _ (issetId_absent ft ident raw cat fields f hf hF hs))
-    (fun f _ hs => habs _ (deqId_absent ft ident raw cat fields (id2str f.id) hs))
+    (fun f _ hs => habs _ (setId_absent ft ident raw goName cat fields f.name hs))
+    (fun f hf hs => habs _ (issetId_absent ft ident raw goName cat fields f hf hF hs))
+    (fun f _ hs => habs _ (deqId_absent ft ident raw goName cat fields (id2str f.id) hs))
   rw [hm, hmeth]
   exact (Steps.trans ⟨trR ++ trM, eRM, by rw [List.map_append, nR], by rw [List.map_append, iR, iM]⟩ sF)
 
-theorem buildMembers_nodup (ft : Feat) (ident : Bytes → Bytes) (raw : Bytes) (cat : Cat) (fields : List Fld)
-    (ns : NS) (fs : List FieldNames) (h : buildMembers ft ident raw cat fields = .ok (ns, fs))
-    (hid : (memberIds ft ident raw cat fields).Nodup) (hraw : ∀ f ∈ fields, hasDollar f.name = false) :
-    (reservedFuncs ft cat raw ++ fs.flatMap fieldMethodNames ++ fs.map (·.name)).Nodup :=
-  (buildMembers_steps ft ident raw cat fields ns fs h hid hraw).nodup hid
+theorem buildMembers_nodup (ft : Feat) (ident : Bytes → Bytes) (raw goName : Bytes) (cat : Cat) (fields : List Fld)
+    (ns : NS) (fs : List FieldNames) (h : buildMembers ft ident raw goName cat fields = .ok (ns, fs))
+    (hid : (memberIds ft ident raw goName cat fields).Nodup) (hraw : ∀ f ∈ fields, hasDollar f.name = false) :
+    (reservedFuncs ft cat raw goName ++ fs.flatMap fieldMethodNames ++ fs.map (·.name)).Nodup :=
+  (buildMembers_steps ft ident raw goName cat fields ns fs h hid hraw).nodup hid
 
 /-! ## function scopes -/
 
@@ -1205,11 +1216,11 @@ theorem fileGlobals_nodup (ft : Feat) (kw : List Bytes) (f : File) (ident : Byte
 
 theorem members_complete (ft : Feat) (ident : Bytes → Bytes) (g g' : NS) (v : SL) (nn : Bytes)
     (s : StructNames) (synth : Bool) (h : buildStructLike ft ident g v nn = .ok (g', s))
-    (hid : (memberIds ft ident v.name v.cat v.fields).Nodup)
+    (hid : (memberIds ft ident v.name s.goName v.cat v.fields).Nodup)
     (hraw : ∀ f ∈ v.fields, hasDollar f.name = false)
     (hm : noMemberMintClash ft synth s = true) : (managedMembers ft s ++ mintedMembers ft synth s).Nodup := by
   obtain ⟨_, hb, hr, hc⟩ := buildStructLike_spec h
-  have hd := buildMembers_nodup ft ident v.name v.cat v.fields s.scope s.fields hb hid hraw
+  have hd := buildMembers_nodup ft ident v.name s.goName v.cat v.fields s.scope s.fields hb hid hraw
   unfold noMemberMintClash at hm
   refine nodup_append_of_noClash _ _ ?_ hm
   unfold managedMembers
